@@ -5,6 +5,7 @@ Require Import ExtrOcamlBasic.
 From EPD Require Import Iface Ops Hal Run Panels.
 From EPD Require Big.Model.
 From EPD Require Pure.Rect Pure.Color Pure.Graphics Pure.Aliases.
+From EPD Require Ctl.Ctl Spec.PSpec Spec.Checks Spec.Sys Spec.Hist Spec.Specs Spec.Oracle.
 Extraction Language OCaml.
 Separate Extraction
   Iface.bapply Iface.calls Ops.op Ops.mkFeat Hal.expand Hal.mk_cfg Hal.den Run.call Run.construct Run.icalls_of
@@ -22,4 +23,6 @@ Separate Extraction
   Color.oct_from_binary Color.oct_from_raw_u4 Color.oct_from_rgb888
   Graphics.bitmask Graphics.buffer_len Graphics.line_bytes Graphics.buffer_size Graphics.var_new_ok
   Graphics.set_pixel Graphics.apply_write Graphics.size Graphics.all_rot
-  Aliases.aliases.
+  Aliases.aliases
+  (* controller models, checks and the per-call oracle (ocaml/oracle.ml) *)
+  Oracle.observe Oracle.observe_new Oracle.lut_ref Hist.init_sig Hist.P Specs.spec_of Sys.sym Sys.sys_new.
